@@ -158,6 +158,10 @@ def run(ctx: Ctx) -> None:
     r.floor(35)
 
     once_rule(ctx)
+    from ..siblingrule import sibling_rule
+    from ..wiring import wiring_rule
+    sibling_rule(ctx, "R09.sib")
+    wiring_rule(ctx, "R09.wire", which=("data",))
 
 
 LOADS = {"LB": "read_byte", "LH": "read_halfword", "LW": "read_word", "LBU": "read_byte", "LHU": "read_halfword"}
